@@ -109,7 +109,7 @@ impl Campaign for Roundtrip {
     }
 }
 
-/// PUBLISH with a remaining length on the 2 MiB boundary (3/4 length bytes); thorough only
+/// PUBLISH with a remaining length on the 2 MiB boundary (3/4 length bytes)
 pub struct Huge;
 
 impl Campaign for Huge {
@@ -118,7 +118,7 @@ impl Campaign for Huge {
         "roundtrip_2mib"
     }
     fn cases(&self, tier: Tier) -> u64 {
-        tier.pick(0, 480)
+        tier.pick(60, 480)
     }
     fn strategy(&self, _tier: Tier) -> BoxedStrategy<RtCase> {
         gen::huge_publish().prop_map(|(ver, m)| RtCase { ver, m, only: None }).boxed()
@@ -257,7 +257,7 @@ pub fn plan(_tier: Tier) -> Plan {
                 rep.classes.entry(format!("roundtrip:{c}")).or_insert(0);
             }
         })],
-        rule: "A case is (protocol version, packet value M) built by construction from boundary-biased sub-generators (string lengths 0,1,2,127,128,255,256,65534,65535 and multi-byte UTF-8; pkid edges; 1-40 filters/codes; every v5 property independently on/off incl. Some-but-empty property sets; user properties 0-5; subscription identifiers on varint boundaries; every reason code legal for the type); about 40 % of the cases are stretched (payload, client id, last filter or reason string) so that the remaining length is 125..130 or 16381..16386 (2097149..2097154 in the thorough-only campaign roundtrip_2mib). Each case is encoded by both codecs of its version and checked by the four oracle clauses (sizes/frame vs reference framer and reference decoder; decode with 3 sentinel bytes and max = remaining length; cross decode client->broker / broker->client in the direction the packet travels; re-encode byte equality). Non-trivial = the packet has at least one variable-length field (string, binary, list, or a variable-length property) and at least one clause ran; shapes are (type, version, remaining-length width, property-count bucket); distinct by hash of the whole case. Classes 'cell:<type>:<version>:width<n>' are the type x version x width matrix (zero cells listed).".into(),
+        rule: "A case is (protocol version, packet value M) built by construction from boundary-biased sub-generators (string lengths 0,1,2,127,128,255,256,65534,65535 and multi-byte UTF-8; pkid edges; 1-40 filters/codes; every v5 property independently on/off incl. Some-but-empty property sets; user properties 0-5; subscription identifiers on varint boundaries; every reason code legal for the type); about 40 % of the cases are stretched (payload, client id, last filter or reason string) so that the remaining length is 125..130 or 16381..16386 (2097149..2097154 in the campaign roundtrip_2mib: 60 cases in the quick tier, 480 in the thorough one). Each case is encoded by both codecs of its version and checked by the four oracle clauses (sizes/frame vs reference framer and reference decoder; decode with 3 sentinel bytes and max = remaining length; cross decode client->broker / broker->client in the direction the packet travels; re-encode byte equality). Non-trivial = the packet has at least one variable-length field (string, binary, list, or a variable-length property) and at least one clause ran; shapes are (type, version, remaining-length width, property-count bucket); distinct by hash of the whole case. Classes 'cell:<type>:<version>:width<n>' are the type x version x width matrix (zero cells listed).".into(),
         assumptions: vec![
             "The reference framer/encoder/decoder in harness/src/codec/reference.rs follow MQTT 3.1.1 (OASIS 2014) and MQTT 5.0 (OASIS 2019) wire formats".into(),
             "Well-formed per codec: Some(empty properties) and None are the same packet; a Login with an empty password has no password (the packet types cannot express a present zero-length password); a user name is non-empty whenever a Login exists; QoS 0 PUBLISH has packet id 0, QoS>0 a non-zero id; SUBSCRIBE/UNSUBSCRIBE/SUBACK/v5 UNSUBACK carry at least one entry; v4 packets carry no v5 content; broker SubscribeReasonCode::QoSn and Success(n) are the same code; subscription identifiers are 1..=268435455; topic alias is non-zero".into(),
